@@ -1074,7 +1074,16 @@ def gen_array_pass(node, code, codegen):
         scope = 'g'  # global
     else:
         scope = 'l'  # local
-    code.add((f'pushref{scope}', var.full_name))
+
+    if node.identifier in node.parent_routine.params or \
+       var.type.is_dynamic_array:
+        # the variable's cell already holds a reference to the array
+        # (an array parameter, or a dynamic array allocated on the
+        # heap); pass that reference on, not a reference to the cell
+        code.add((f'read{scope}@', var.full_name))
+    else:
+        # a static array lives in the frame itself
+        code.add((f'pushref{scope}', var.full_name))
 
 
 @QvmCodeGen.generator_for(expr.BinaryOp)
